@@ -9,6 +9,7 @@ go to a block start plus an offset up to the block's length.
 -/
 import Hts.Lemmas.ReaderProps
 import Hts.Lemmas.ReaderLTSTerm
+import Hts.Lemmas.ReaderLTSExact
 namespace Hts.Props.C02
 open Hts.Model.Bgzf Hts.Spec.Flat
 
@@ -179,6 +180,25 @@ theorem readahead_in_order (cfg : Cfg) (hc : cfg.OK) (s t : ReadAhead.State) (l 
       simp only [next, apiStep, hsend] at hs
       step_cases hs <;> simp_all
       exact hi.wfCur
+
+open Hts.Model Hts.Model.ReadAhead in
+/-- Read-ahead refines the sequential reader: without I/O faults, on every path, the block a completed
+`nextBlock` installs is `⟨e, chain e⟩` for `e` the base following the previous current block, and the block a
+completed (non-trivial) `Seek(off)` installs is `⟨off, chain off⟩` — exactly what the rd = 1 reader loads
+synchronously (`Block.load` of `Hts.Model.Bgzf`), whatever the interleaving and however many stale blocks were
+in flight. -/
+theorem readahead_refines_sequential (cfg : Cfg) (hc : cfg.OK) (hf : cfg.faults = false)
+    (s t : ReadAhead.State) (l : Label) (e : Option Ev) (h : Reachable cfg s) (hs : next cfg s l = some (e, t)) :
+    (∀ b i ok, s.cons = .scan b i → t.cons = .ret ok → t.cur = ⟨some b, cfg.chain b⟩) ∧
+    (∀ w ok, s.cons = .send w → t.cons = .ret ok → t.cur = ⟨some w, cfg.chain w⟩) := by
+  have hord := readahead_in_order cfg hc s t l e h hs
+  have hex := (exact_reachable hf (Reachable.step h ⟨l, e, hs⟩)).cur
+  have key : ∀ b, t.cur.base = some b → t.cur = ⟨some b, cfg.chain b⟩ := by
+    intro b hb
+    have : t.cur.next = cfg.chain b := by simpa [Exact, hb] using hex
+    cases hcur : t.cur with
+    | mk base nx => rw [hcur] at hb this; simp only at hb this; rw [hb, this]
+  exact ⟨fun b i ok h1 h2 => key b (hord.2.1 b i ok h1 h2).1, fun w ok h1 h2 => key w (hord.2.2 w ok h1 h2).1⟩
 
 open Hts.Model Hts.Model.ReadAhead in
 /-- After `Close` has returned the worker goroutine has returned. -/
